@@ -11,7 +11,7 @@ from . import x2c
 
 VERIF = os.path.dirname(os.path.dirname(os.path.abspath(__file__)))
 REPO = os.environ.get('IORA_REPO', '/repo')
-WORK = os.path.join(VERIF, '.work')
+WORK = os.path.join(VERIF, '.work') if REPO == '/repo' else os.path.join(VERIF, '.work', 'alt_' + re.sub(r'\W+', '_', REPO))
 
 BASE_CHECKS = ['--bounds-check', '--pointer-check', '--pointer-overflow-check', '--conversion-check',
                '--signed-overflow-check', '--div-by-zero-check', '--undefined-shift-check']
@@ -63,6 +63,13 @@ class Unit:
     def extract(self):
         os.makedirs(self.work, exist_ok=True)
         methods = load_methods(self.dir)
+        plug = os.path.join(self.dir, 'plugin.py')
+        if os.path.exists(plug):
+            import importlib.util
+            sp = importlib.util.spec_from_file_location(f'plugin_{self.name}', plug)
+            mod = importlib.util.module_from_spec(sp)
+            sp.loader.exec_module(mod)
+            self.spec['_plugin'] = mod
         try:
             ctext, rep = x2c.extract_unit(REPO, self.spec, methods)
         except x2c.ExtractionBreak as e:
@@ -106,8 +113,16 @@ class Unit:
                 cmd += ['--replace-call-with-contract', r]
             if proof.get('loop_contracts', True):
                 cmd += ['--apply-loop-contracts']
+            else:
+                extra_defs = list(extra_defs)
             cmd += [gb, gb2]
             rc, out, err, dt = run(cmd, 300, mem_gb=8)
+            if rc != 0:
+                raise Undecided(f"unit {self.name}/{name}: goto-instrument failed:\n{(out + err)[-3000:]}")
+            return gb2
+        if proof.get('loop_contracts'):
+            # plain harness (no DFCC) whose callee still has loops: loop contracts without frame checking
+            rc, out, err, dt = run(['goto-instrument', '--apply-loop-contracts', gb, gb2], 300, mem_gb=8)
             if rc != 0:
                 raise Undecided(f"unit {self.name}/{name}: goto-instrument failed:\n{(out + err)[-3000:]}")
             return gb2
@@ -144,6 +159,27 @@ def normalise_desc(d):
     return d
 
 
+_SRC = {}
+
+
+def _clause_text(path, line):
+    try:
+        if path not in _SRC:
+            _SRC[path] = open(path).read().splitlines()
+        L = _SRC[path]
+        i = int(line) - 1
+        txt = L[i].strip()
+        # join continuation lines of the clause (until parentheses balance)
+        j = i
+        while txt.count('(') > txt.count(')') and j + 1 < len(L) and j - i < 6:
+            j += 1
+            txt += ' ' + L[j].strip()
+        txt = re.sub(r'\\$', '', txt)
+        return re.sub(r'\s+', ' ', txt)[:160]
+    except Exception:
+        return f"line {line}"
+
+
 def parse_cbmc(res, rc, unit, proof, dt, cmdline):
     props = []
     messages = []
@@ -170,6 +206,9 @@ def parse_cbmc(res, rc, unit, proof, dt, cmdline):
         fn = sl.get('function', '')
         m = re.match(r'(.*)\.([A-Za-z_\-]+)\.\d+$', name)
         cls = m.group(2) if m else 'assertion'
+        if cls in ('postcondition', 'precondition') and sl.get('file', '').startswith(VERIF):
+            # every ensures/requires clause has the same CBMC description: identify the clause by its own text
+            desc = desc + ' :: ' + _clause_text(sl.get('file'), sl.get('line'))
         key = f"{unit}|{fn}|{cls}|{desc}"
         seen[key] = seen.get(key, 0) + 1
         out.append({"key": key, "nth": seen[key], "id": name, "class": cls, "function": fn, "description": desc,
